@@ -480,6 +480,21 @@ class SinkAnalysis:
                         return False, "escaping function %s lets %s through unchanged" % (short(name), leak.describe(4))
                     return True, "output of verified escaping function %s" % short(name)
                 return self.fn_returns_safe(name, sink, depth + 1)
+            if re.search(r"^core::(result::Result::<T, E>|option::Option::<T>)::(unwrap_or_default|unwrap_or|unwrap|expect|ok|unwrap_or_else|or|cloned|copied)$", name) and args:
+                # the payload (and the fallback value, if any) decide; a closure fallback is followed
+                for a in args[:2] if name.endswith(("unwrap_or", "or")) else args[:1]:
+                    ok, why = self.safe(path, a, sink, depth + 1)
+                    if not ok:
+                        return ok, why
+                if name.endswith("unwrap_or_else") and len(args) == 2:
+                    cl, _ = closure_of(args[1])
+                    if not (cl and cl in self.prog.bodies):
+                        return False, "unwrap_or_else with an unknown fallback"
+                    for r in Expr(self.prog, cl).returns():
+                        ok, why = self.safe(cl, r, sink, depth + 1)
+                        if not ok:
+                            return False, "fallback closure %s: %s" % (short(cl), why)
+                return True, "payload of a harmless Result/Option"
             if re.search(r"hint::must_use$", name) and len(args) == 1:
                 return self.safe(path, args[0], sink, depth + 1)
             if re.search(r"^alloc::fmt::format$", name) and len(args) == 1:
@@ -523,6 +538,8 @@ class SinkAnalysis:
                 return False, "sauron unit helper on a non-number"
             if re.search(r"Vec::<T>::new$|String::new$|Vec::<T, A>::new|vec::from_elem", name) and not args:
                 return True, "empty"
+            if re.search(r"(Vec::<T>|Vec::<T, A>|String)::with_capacity$", name):
+                return True, "empty (with capacity)"
             if re.search(r"pom::parser::Parser::<'a, I, O>::parse$", name) and len(args) == 2:
                 g = strip(args[0])
                 if g[0] == "call" and self.grammar is not None:
